@@ -6,15 +6,13 @@
    reproduced on the implementation by harness/props/c09.py):
    * exec bits are stated in the property's direction only (an executable entry is executable):
      _chmod_files only ever ORs S_IEXEC, and under hardlink/symlink the bit is the cache object's.
-   * C09_errors_reported excludes link type symlink: os.symlink does not look at its source, a
-     dangling link is made and onerror is never called - C09_errors_reported_symlink_refuted.
-   * C09_converges / C09_fixpoint ask that every directory of the target has an entry
-     ([dirs_explicit]: what build() and lazy loading produce).  For targets made of file entries
-     only the statements are false on the model as on the code:
-     C09_fixpoint_implicit_refuted (the second compare wants to delete every implicit directory),
-     C09_converges_implicit_link_refuted (hardlink/symlink do not create parent directories). *)
+   * C09_converges is proved for the two deletion phases only (C09_converges_partial: after
+     _delete_files and _delete_dirs exactly the paths the target keeps are left - the induction on
+     key depth that /repo d2d7c8a repaired); the creation phases and C09_fixpoint are NOT proved
+     (statements kept below in a comment; they are exercised by the correspondence + oracle on every
+     run and hold by computation on the examples of Proofs/IdxCheckoutConverge.v). *)
 From Coq Require Import NArith List Bool.
-From DvcData Require Import Base.Val Base.PyBase Gen.PyTypes Gen.IDiff Model.IdxCheckout Proofs.IdxCheckoutProofs.
+From DvcData Require Import Base.Val Base.PyBase Gen.PyTypes Gen.IDiff Model.IdxCheckout Proofs.IdxCheckoutProofs Proofs.IdxCheckoutConverge.
 Import ListNotations.
 Open Scope N_scope.
 
@@ -28,9 +26,8 @@ Print Assumptions C09_no_delete.
 
 (* Every file entry of the (loaded) target whose source is unavailable - no hash info (code 3) or
    its object absent from the cache (code 2) - and which is not already in place is passed to
-   onerror; for any workspace, any delete mode, link types copy and hardlink. *)
+   onerror; for any workspace, any delete mode, every link type (symlink since /repo 41e56e8). *)
 Theorem C09_errors_reported : forall lt delete avail tr order w t k x c,
-  lt <> Symlink ->
   lookup (fst (expand tr t)) k = Some (TFile x c) ->
   unavailable avail c = true ->
   same_file (lookup w k) (Some (TFile x c)) = false ->
@@ -44,11 +41,35 @@ Theorem C09_failed_dirs_reported : forall lt delete avail tr order w t k,
 Proof. exact failed_reported. Qed.
 Print Assumptions C09_failed_dirs_reported.
 
-Theorem C09_errors_reported_symlink_refuted :
-  exists avail tr order w t k x c,
-    lookup (fst (expand tr t)) k = Some (TFile x c) /\ unavailable avail c = true /\
-    same_file (lookup w k) (Some (TFile x c)) = false /\
-    ~ In (k, ecode c) (o_errs (checkout Symlink true avail tr order w t)) /\
-    lookup (o_ws (checkout Symlink true avail tr order w t)) k = Some Dangling.
-Proof. exact errors_reported_symlink_refuted. Qed.
-Print Assumptions C09_errors_reported_symlink_refuted.
+
+(* Deletion phases of apply with delete=True, from ANY prefix-closed workspace, for a target whose
+   directories all have entries: after _delete_files and _delete_dirs (deepest first) a path is gone
+   iff compare scheduled it - a file whose content the target does not keep at that path, or a
+   directory that is neither a directory entry nor an implicit node of the target - however deeply
+   the directories to remove are nested and whatever the order of the plan's lists; every other
+   path is untouched.  ([ws2] = the workspace after the two phases, Proofs/IdxCheckoutProofs.v.) *)
+Theorem C09_converges_partial : forall w tr t,
+  ws_ok w -> dirs_explicit (fst (expand tr t)) ->
+  forall k, k <> [] ->
+    lookup (ws2 (compare false true w tr t) w) k =
+    if fd true (lookup w k) (lookup (fst (expand tr t)) k)
+       || dd true (lookup w k) (lookup (fst (expand tr t)) k) (has_node (fst (expand tr t)) k)
+    then None else lookup w k.
+Proof. exact delete_phase. Qed.
+Print Assumptions C09_converges_partial.
+
+(* NOT PROVED (full statements of DESIGN.md, in the property's exec direction):
+   C09_converges : ws_ok w -> dirs_explicit t' -> snd (expand tr t) = [] ->
+     (forall k x c, lookup t' k = Some (TFile x c) -> unavailable avail c = false) ->
+     let o := checkout lt true avail tr order w t in
+     o_errs o = [] /\ o_raised o = false /\
+     forall k, k <> [] ->
+       match lookup (o_ws o) k, option_map fs_node' (lookup t' k) with
+       | Some (File b x _), Some (File c x' _) => b = c /\ (x' = true -> x = true)
+       | Some Dir, Some Dir | None, None => True
+       | _, _ => False
+       end
+   C09_fixpoint : under the same hypotheses, for p2 := fst (compare false true (o_ws o) tr t):
+     files_delete p2 = [] /\ dirs_delete p2 = [] /\ files_create p2 = [] /\ forall k, In k (dirs_create p2) -> k = []
+   Missing: the pointwise specifications of the fold over dirs_create (mkdirs_spec is proved per
+   call), of create_files at the created key for the three link types, and of chmod_files. *)
